@@ -68,14 +68,16 @@ Bounds == << [tok |-> "q", q |-> -36, m |-> TRUE], [tok |-> "q", q |-> -12, m |-
 \* texts for to_number
 NumTexts == { <<48>>, <<55>>, <<49, 50>>, <<48, 48, 55>>, <<49, 46, 53>>, <<50, 46, 50, 53>>, <<48, 46, 55, 53>>, <<51, 46, 48>>,
               <<45, 51>>, <<45, 48, 46, 55, 53>>, <<45, 49, 50, 46, 53>>, <<57, 57, 57, 57, 57, 57>>, <<49, 46, 53, 48>>,
-              <<>>, <<97, 98, 99>>, <<233>>, <<49, 120>>, <<120, 49>>, <<49, 44, 53>>, <<49, 46, 50, 46, 51>>, <<36, 49>>,
+              <<>>, <<97, 98, 99>>, <<233>>, <<49, 120>>, <<49, 122>>, <<49, 50, 107>>, <<120, 49>>, <<49, 44, 53>>, <<49, 46, 50, 46, 51>>, <<36, 49>>,
               <<45>>, <<46>>, <<49, 46>>, <<46, 53>>, <<45, 48>>, <<43, 49>>, <<49, 101, 51>>, <<49, 69, 45, 50>>,
               <<105, 110, 102>>, <<45, 105, 110, 102>>, <<78, 97, 78>>, <<110, 97, 110>>, <<105, 110, 102, 105, 110, 105, 116, 121>>,
               <<32, 49>>, <<49, 32>>, <<49, 95, 48, 48, 48>>, <<48, 120, 49, 48>>, <<48, 46, 49>>, <<48, 46, 51>>,
               <<1633>>, <<65297>>, <<49, 50, 51, 52, 53, 54, 55, 56, 57, 48, 49, 50, 51, 52, 53, 54, 55, 56, 57, 48>> }
 \* to_number "or NaN on failure": a text that is empty or has a code point no number syntax uses
 \* cannot be a number.  Anything else that is not a plain decimal literal is not modelled.
-NumberSyntax == (48..57) \cup {43, 45, 46, 95, 32, 9, 10} \cup (65..90) \cup (97..122)
+\* digits + - . _ white space and the letters of "infinity", "nan", "e", "x" in either case
+NumberSyntax == (48..57) \cup {43, 45, 46, 95, 32, 9, 10}
+                \cup {105, 110, 102, 116, 121, 97, 101, 120} \cup {73, 78, 70, 84, 89, 65, 69, 88}
 MustBeNaN(s) == s = <<>> \/ \E i \in 1..Len(s) : s[i] \notin NumberSyntax
 
 \* ---------- the enumeration ----------
